@@ -739,6 +739,8 @@ def rule_lockorder(ctx, rep):
 
 META["explanation"] += " " + "Also (rounds 10-11): the queued wait node starts WAITING, wake_all skips only RUNNING nodes, qsbr's waiting flag is announced non-zero and tested with the matching polarity, the reader-side outermost test masks the nesting count."
 
+META["explanation"] += " " + 'Also (round 12): a call_rcu helper never sleeps / polls while online (qsbr); nesting rules shared from C01.'
+
 RULES = [
     ("C02.sb-upd", rule_sb_upd),
     ("C02.sb-rd", rule_sb_rd),
